@@ -25,6 +25,7 @@ import (
 	"net"
 	"os"
 	"os/signal"
+	"reflect"
 	"sort"
 	"syscall"
 	"time"
@@ -61,6 +62,7 @@ type reply struct {
 	Err   string     `json:"err,omitempty"`
 	Cert  string     `json:"cert,omitempty"`
 	IAT   string     `json:"iat,omitempty"`
+	InUse string     `json:"iat_in_use,omitempty"` // the factory's own iatMode field (read by reflection), "" if absent
 	Keys  []string   `json:"keys,omitempty"`  // names of the advertised arguments, sorted
 	Addrs [][]string `json:"addrs,omitempty"` // tickets: stored addresses after load, after op 1, …
 }
@@ -128,6 +130,11 @@ func main() {
 		r := reply{OK: true}
 		r.Cert, _ = a.Get("cert")
 		r.IAT, _ = a.Get("iat-mode")
+		if v := reflect.ValueOf(sf); v.Kind() == reflect.Ptr && v.Elem().Kind() == reflect.Struct {
+			if f := v.Elem().FieldByName("iatMode"); f.IsValid() && f.CanInt() {
+				r.InUse = fmt.Sprint(f.Int())
+			}
+		}
 		for k := range *a {
 			r.Keys = append(r.Keys, k)
 		}
